@@ -34,7 +34,8 @@ func init() {
 			"oracle: loop iterations and function entries inside the library <= 64 * (|expression| + |document| + |result|) * max(1, log2) + 512 and bytes allocated <= 4096 * size + 1 MiB for the magnitude part; <= 64 * size^2 and iterations(2n) / iterations(n) <= 8 for the growth part (a low-order polynomial passes, an exponential does not); " +
 			"a tick-budget abort, a worker killed by the memory limit or a call still running at the 60 s watchdog is a violation; non-trivial = a call that returns a non-empty value; distinct_nontrivial counts distinct results",
 		Phases: []core.Phase{{Name: "magnitude", Build: "instr", Fn: c09RunMagnitude, CrashIsViolation: true}, {Name: "growth", Build: "instr", Fn: c09RunGrowth, CrashIsViolation: true},
-			{Name: "many-expressions", Build: "instr", Procs: 1, Fn: c09RunMany, CrashIsViolation: true}},
+			{Name: "many-expressions", Build: "instr", Procs: 1, Fn: c09RunMany, CrashIsViolation: true},
+			{Name: "all-texts", Build: "instr", Fn: c09RunTexts, CrashIsViolation: true}, {Name: "after-a-large-call", Build: "instr", Procs: 8, Fn: c09RunAfter, CrashIsViolation: true}},
 		Judge: c09Judge,
 		Assumptions: []string{
 			"work inside the standard library and the decimal128 package is not counted in loop iterations; it is seen through bytes allocated, the memory limit and the watchdog",
@@ -693,6 +694,9 @@ func c09RunMany(r *core.Run) {
 }
 
 func c09Judge(r *core.Run, phase string, pt map[string]any) *core.Violation {
+	if v, ok := c09MoreJudge(r, pt); ok {
+		return v
+	}
 	if pstr(pt, "kind") == "many" {
 		sub := *r
 		sub.Clusters = map[string]*core.Cluster{}
